@@ -5,17 +5,18 @@ Everything is over an arbitrary field `K` (executed at `K = ℚ` by `Driver/C02.
 Mutable `ChainState` objects become values: a phase-space point is a pair `(q, p) : V × V`,
 a flow `flow(state, dt)` that updates `state` in place becomes a function `K → V × V → V × V`.
 
-Code anchors (line numbers of /repo/src/mici):
+Code anchors (/repo/src/mici; line numbers as of repo commit 4c732fb, the method names are authoritative):
 * `stride2`, `slice2`, `deriveCoeffs`, `flowsList`, `mkSymComp` — `SymmetricCompositionIntegrator.__init__`
-  (integrators.py:259-272)
-* `symComp`       — `SymmetricCompositionIntegrator._step` (integrators.py:274-276)
-* `leapfrog`      — `LeapfrogIntegrator._step` (integrators.py:170-173)
-* `State`, `step` — `Integrator.step` (integrators.py:63-80): `state.copy()` then
-                    `_step(state, state.dir * step_size)`
+  (integrators.py:270-283)
+* `symComp`       — `SymmetricCompositionIntegrator._step` (integrators.py:285-287)
+* `leapfrog`      — `LeapfrogIntegrator._step` (integrators.py:181-184)
+* `State`, `step` — `Integrator.step` (integrators.py:68-91): `state.copy()` then
+                    `_step(state, state.dir * step_size)`; a `ValueError` / `LinAlgError` raised inside
+                    `_step` is re-raised as `IntegratorError` (over an exact field none arises)
 * `kick`          — `System.h1_flow` (systems.py:143-152)
 * `drift`         — `EuclideanMetricSystem.h2_flow` (systems.py:362-363)
-* `harmonic`      — `GaussianEuclideanMetricSystem.h2_flow` (systems.py:467-477)
-* `driftDmom`, `harmonicDmom` — `dh2_flow_dmom` (systems.py:797-802, 1174-1187)
+* `harmonic`      — `GaussianEuclideanMetricSystem.h2_flow` (systems.py:468-478)
+* `driftDmom`, `harmonicDmom` — `dh2_flow_dmom` (systems.py:798-803, 1175-1188)
 -/
 import Mathlib.Algebra.Field.Defs
 import Mathlib.Algebra.Module.Defs
@@ -36,7 +37,7 @@ def stride2 {α : Type*} : List α → List α
 /-- Python `l[k::2]`. -/
 def slice2 {α : Type*} (k : Nat) (l : List α) : List α := stride2 (l.drop k)
 
-/-- `SymmetricCompositionIntegrator.__init__`, lines 261-269:
+/-- `SymmetricCompositionIntegrator.__init__`, lines 272-280:
 ```
 n = len(free); coefficients = list(free)
 coefficients.append(0.5 - sum(free[n % 2 :: 2]))
@@ -49,7 +50,7 @@ def deriveCoeffs {K : Type*} [Field K] (free : List K) : List K :=
   let c₂ := c₁ ++ [1 - 2 * (slice2 ((n + 1) % 2) free).sum]
   c₂ ++ c₂.dropLast.reverse
 
-/-- `[flow_a, flow_b] * (n + 1) + [flow_a]` (line 272). -/
+/-- `[flow_a, flow_b] * (n + 1) + [flow_a]` (line 283). -/
 def flowsList {F : Type*} (a b : F) (n : Nat) : List F :=
   (List.replicate (n + 1) [a, b]).flatten ++ [a]
 
@@ -62,7 +63,7 @@ structure SymCompIntegrator (K X : Type*) where
   coeffs : List K
   flows : List (K → X → X)
 
-/-- `SymmetricCompositionIntegrator.__init__` (lines 259-272). -/
+/-- `SymmetricCompositionIntegrator.__init__` (lines 270-283). -/
 def mkSymComp {K X : Type*} [Field K] (h1Flow h2Flow : K → X → X) (free : List K)
     (initialH1 : Bool) : SymCompIntegrator K X :=
   let flowA := if initialH1 then h1Flow else h2Flow
@@ -124,7 +125,7 @@ structure Trig (n : Nat) (K : Type*) where
   c : Fin n → K
   s : Fin n → K
 
-/-- Gaussian-split `h2_flow` (systems.py:467-477). `Q = metric.eigvec`, `ω = 1/sqrt(metric.eigval)`,
+/-- Gaussian-split `h2_flow` (systems.py:468-478). `Q = metric.eigvec`, `ω = 1/sqrt(metric.eigval)`,
 `trig dt = (cos(ω dt), sin(ω dt))`. -/
 def harmonic (Q : Matrix (Fin n) (Fin n) K) (ω : Fin n → K) (trig : K → Trig n K) (t : K)
     (x : (Fin n → K) × (Fin n → K)) : (Fin n → K) × (Fin n → K) :=
